@@ -122,6 +122,45 @@ def no_stats_rule(run, tier, rng):
             run.violation({"kind": "in_place_differs", "dtype": str(np.dtype(dt))})
 
 
+def loaded_statistics(run, tier, rng):
+    """'With accumulated or LOADED statistics': statistics that went through a file (every kind of target) give the
+    transform of the data they were accumulated from - including coefficients that never varied, at values binary
+    floating point cannot hold exactly."""
+    import os
+    import shutil
+    import tempfile
+    nprng = np.random.RandomState(rng.randint(0, 2 ** 31 - 1))
+    tmp = tempfile.mkdtemp(prefix="verif_c16_")
+    try:
+        k = 0
+        for const in (0.7, 2.3, -3.3, 0.1):
+            for n in (1, 2, 3, 8, 13, 40):
+                for fn, kw in (("s.bin", {"force_as": "file"}), ("s.npy", {}), ("s.npz", {})):
+                    data = np.stack([np.full(n, const), nprng.randn(n) * 3 - 20.0], axis=1)
+                    probe = nprng.randn(3, 2) + np.array([const, -20.0])
+                    s = post.Standardize()
+                    s.accumulate(data)
+                    k += 1
+                    path = os.path.join(tmp, "%d_%s" % (k, fn))
+                    run.evaluations += 1
+                    mean = data.mean(0)
+                    var = (data ** 2).mean(0) - mean ** 2
+                    want = (probe - mean) / np.sqrt(np.where(np.isclose(var, 0), 1.0, var))
+                    try:
+                        with warnings.catch_warnings():
+                            warnings.simplefilter("ignore")
+                            s.save(path)
+                            got = post.Standardize(path, **kw).apply(probe)
+                    except Exception as e:
+                        run.violation({"kind": "loaded_statistics_unusable", "target": fn, "constant_coefficient": const, "n_vectors": n, "error": repr(e)})
+                        continue
+                    if got.shape != want.shape or not np.allclose(got, want, rtol=1e-6, atol=1e-6):
+                        run.violation({"kind": "apply_differs_from_statistics_given", "target": fn, "constant_coefficient": const, "n_vectors": n,
+                                       "what": "statistics loaded from a file"})
+    finally:
+        shutil.rmtree(tmp, ignore_errors=True)
+
+
 def run(tier, seed):
     run = common.Run("C16", tier, seed)
     rng = random.Random(seed)
@@ -129,6 +168,7 @@ def run(tier, seed):
     std_model.drive(run, tier, rng, "acc")
     permutations_and_splits(run, tier, rng)
     no_stats_rule(run, tier, rng)
+    loaded_statistics(run, tier, rng)
     run.extra["rule"] = "random call sequences of 2-7 operations over 3 instances and 4 files; 4 random permutations/splits/layouts per bag; no-statistics rule over 9 shapes x every axis"
     return run.finish()
 
